@@ -229,6 +229,10 @@ def unop (s : String) : Option History.Op :=
   | ["sd", g, k] => do pure (.send (← unnat g) (← unnat k))
   | ["b85", app, param, index] => do pure (.bip85 (← unnat app) (← unint param) (← unint index))
   | ["rep", acct, a, b] => do pure (.report (← unnat acct) (← unnat a) (← unnat b))
+  -- `exp:<acct>:<a>:<b>`: the report exported to the client's output file, read back and parsed.  In the model the
+  -- file holds exactly the rendered text (Props/TrText.texts_eq, export_to_file is shape-checked) and parsing it
+  -- gives the report back (C06), so the answer is the report
+  | ["exp", acct, a, b] => do pure (.report (← unnat acct) (← unnat a) (← unnat b))
   | ["was"] => some .wasabi
   | ["root"] => some .rootKey
   -- `nw:<t>`: the client builds ANOTHER wallet object over the same root node (network flag t) and then asks the
